@@ -43,6 +43,16 @@ def _sha(*parts):
     return h.hexdigest()
 
 
+def _read_cfgfree(p):
+    """File content; configure timestamps are dropped so that re-running configure does not
+    invalidate the object cache."""
+    with open(p, "rb") as fh:
+        data = fh.read()
+    if p.endswith(("f8config.h", "intermediate_config.h")):
+        data = b"\n".join(l for l in data.split(b"\n") if b"CONFIGURE_" not in l)
+    return data
+
+
 def header_hash():
     """Hash of every header the probes can see (tree hash; cheap: ~250 files)."""
     global _hdr_hash
@@ -61,10 +71,8 @@ def header_hash():
                     if f.endswith((".hpp", ".h", ".tpp", ".hh")) or (root.endswith("ff") and "." not in f):
                         p = os.path.join(d, f)
                         h.update(p.encode())
-                        with open(p, "rb") as fh:
-                            h.update(fh.read())
-        with open(os.path.join(REPO, "intermediate_config.h"), "rb") as fh:
-            h.update(fh.read())
+                        h.update(_read_cfgfree(p))
+        h.update(_read_cfgfree(os.path.join(REPO, "intermediate_config.h")))
         _hdr_hash = h.hexdigest()
     return _hdr_hash
 
